@@ -87,3 +87,14 @@ End ZF.
 Theorem top_rank_iff_infeasible fin Cinf w : zrank_of (fin ++ [Cinf]) w = S (length fin) <-> nofals world Cinf w = false.
 Proof. rewrite zrank_of_ext. destruct (nofals world Cinf w); split; intros H; try reflexivity; try discriminate.
   pose proof (finite_ranks_below_top fin w). lia. Qed.
+
+(* with facts, the object's acceptance verdict is the extended System Z operator's answer on the augmented base *)
+From InfOCF Require Import ThmOps ThmTop ThmZocfExt.
+Theorem zocf_facts_acceptance_is_operator n D facts fin Cinf q :
+  facts <> [] -> zocf_partition n None facts D = Some (fin ++ [Cinf]) ->
+  existsb (ante q) (Wf (worlds n) (fin ++ [Cinf])) = true ->
+  infer n SysZ true (augment D facts) q = Ans (obj_accept n fin Cinf q).
+Proof. intros Hne HR HA. unfold zocf_partition, zocf_mode in HR. destruct facts as [|f r]; [congruence|]. simpl in HR.
+  assert (HD: augment D (f :: r) <> []).
+  { unfold augment. simpl. intros E. apply app_eq_nil in E as [_ E]. discriminate. }
+  rewrite (infer_z_ext n _ q _ HD HR). f_equal. symmetry. apply object_accept_ext. exact HA. Qed.
